@@ -1112,6 +1112,14 @@ class Collocator:
                     for dim in output[name].get_index("collocation").names
                 ])
 
+                # Newer xarray versions refuse to overwrite a coordinate that
+                # belongs to a MultiIndex. Drop the index and its levels
+                # first (their values are kept in stacked_dims_data):
+                output[name] = output[name].drop_vars([
+                    "collocation",
+                    *output[name].get_index("collocation").names
+                ])
+
             # Okay, actually we want to get rid of the main coordinate. It
             # should stay as a dimension name but without own labels. I.e. we
             # want to drop it. Because it still may a MultiIndex, we cannot
